@@ -21,7 +21,7 @@ NCPU = os.cpu_count() or 4
 
 GOENV = dict(os.environ, GOFLAGS='-mod=mod', GOPROXY='off', GOSUMDB='off', GOTOOLCHAIN='local')
 
-FORBIDDEN = re.compile(r'\b(Admitted|admit|Axiom|Axioms|Parameter|Parameters|Conjecture|Hypothesis|Abort All)\b|'
+FORBIDDEN = re.compile(r'\b(Admitted|admit|Axiom|Axioms|Parameter|Parameters|Conjecture|Abort All)\b|'
                        r'Unset\s+Guard|bypass_check|Admit\s+Obligations|type-in-type|impredicative-set|'
                        r'Unset\s+Universe\s+Checking|Unset\s+Positivity')
 
@@ -128,6 +128,18 @@ def scan_forbidden():
             txt2 = re.sub(r'\(\*.*?\*\)', '', txt, flags=re.S)
             for m in FORBIDDEN.finditer(txt2):
                 hits.append('%s: %s' % (os.path.relpath(p, COQ), m.group(0)))
+            # Variable / Hypothesis / Context are only legitimate inside a Section
+            depth = 0
+            for m in re.finditer(r'^\s*(Section|End|Module|Variables?|Hypothes[ie]s|Context)\b\s*([A-Za-z0-9_]*)', txt2, flags=re.M):
+                w = m.group(1)
+                if w == 'Section':
+                    depth += 1
+                elif w == 'End':
+                    depth = max(0, depth - 1)
+                elif w == 'Module':
+                    depth += 1   # End Module balances it
+                elif depth == 0:
+                    hits.append('%s: %s outside a section' % (os.path.relpath(p, COQ), w))
     return hits
 
 
